@@ -283,3 +283,52 @@ def parse_error_ranges(prog):
             if not (str(a).endswith('.0.0') and str(b).endswith('.0.2')):
                 detail.append('variant %s: range is (%s, %s), expected (token.0, token.2)' % (var, a, b))
     return (not detail), detail
+
+
+def boundary_obligations(run):
+    """C01.2: every offset handed to the line/column lookup by a grammar action is a token boundary (engine A, obligation G2)."""
+    gen = replay.generated_parser()
+    T = tables.extract(gen)
+    A = acteval.Actions(gen)
+    bad, nq, nprod = [], 0, 0
+    for r, (lhs, rhs, act) in sorted(T.prod.items()):
+        if lhs not in KINDS:
+            continue
+        try:
+            P = acteval.Production(A, r, lhs, rhs, act)
+            rs = P.ranges()
+        except acteval.Unsupported as e:
+            run.inconclusive('engine A on %s' % lhs, 'A', str(e))
+            continue
+        nprod += 1
+        has_code = 'INTEGER' in P.rhs and lhs == 'Method'
+        for (what, a, b, txt) in rs:
+            if what == 'range' and not has_code:
+                continue
+            if a is None:
+                run.inconclusive('engine A on %s' % lhs, 'A', txt)
+                continue
+            for t in (a, b):
+                res, m = sat(P, *[t != x for x in P.boundaries()]); nq += 1
+                if res == z3.sat:
+                    bad.append({'production': '%s = %s' % (lhs, rhs), 'offset': str(t), 'layout': layout_of(P, m)})
+    if bad:
+        nn, nbad = native.sweep_c04()
+        rep = any(b.get('field') == 'diagnostic' or 'panic' in b.get('what', '') or 'boundary' in b.get('what', '') for b in nbad)
+        run.violated('every offset handed to the line/column lookup is a token boundary', 'A', 'offset-not-a-token-boundary:' + bad[0]['production'].split(' =')[0] + ':' + bad[0]['offset'],
+                     {'solver': bad[:3], 'native': [b for b in nbad if b.get('field') == 'diagnostic' or 'panic' in b.get('what', '')][:2]}, rep, queries=nq, bound='all layouts')
+    else:
+        run.holds('every offset handed to the line/column lookup by the %d tree-building productions is a token boundary (no computed offsets)' % nprod, 'A', queries=nq, bound='all layouts (unbounded integers)')
+
+
+def parse_error_obligation(run):
+    try:
+        prog = mir.Program(mir.dump_mir())
+        import c03
+        ok, detail, nq = c03.from_parse_error_total(prog)
+        if ok:
+            run.holds('every non-User parse error becomes Some(Error diagnostic) without panicking paths (from_parse_error, all variants)', 'M', queries=nq)
+        else:
+            run.violated('parse failures become diagnostics', 'M', 'from_parse_error:' + detail[0][:60], {'detail': detail}, True, queries=nq)
+    except mir.Unsupported as e:
+        run.inconclusive('from_parse_error', 'M', str(e))
